@@ -109,6 +109,28 @@ def witnesses(run, sc):
     files = D.serialise(rng, g, extras=False)
     run.case({"witness": "D-C05c"}, tag="witness")
     roundtrip(run, sc, 9001, g, files, known=lambda p: "D-C05c" if all("model versions" in x for x in p) else None)
+    # the special floating-point values (NaN, the infinities, -0.0, subnormals), scalar and in lists, are values like any other
+    specials = ["nan", "inf", "-inf", "-0.0", "5e-324", "1.7976931348623157e+308"]
+    for rnd in range(2):
+        g, _ = W.gen_closed(rng, hostile=False, n_ns=1, n_nodes=9)
+        vs = [k for k in g["order"] if g["nodes"][k]["cls"] == "UAVariable"]
+        for j, k in enumerate(vs):
+            t = "Double" if (j + rnd) % 2 == 0 else "Float"
+            sp = specials[(j + rnd) % len(specials)]
+            if t == "Float" and sp in ("5e-324", "1.7976931348623157e+308"):
+                sp = "1.5"
+            v = {"t": t, "v": sp}
+            if j % 3 == 2:
+                v = {"t": "ListOf", "typename": t, "items": [{"t": t, "v": "1.5"}, v]}
+                g["nodes"][k]["attrs"]["ValueRank"] = "1"
+            else:
+                g["nodes"][k]["attrs"].pop("ValueRank", None)
+            g["nodes"][k]["value"] = v
+            g["nodes"][k]["attrs"]["DataType"] = D.BASE(D.VALUE_DT[t])
+        full_models(g)
+        files = D.serialise(rng, g, extras=False)
+        run.case({"witness": "special floats", "variables": len(vs)}, nontrivial=bool(vs), tag="witness")
+        roundtrip(run, sc, 9100 + rnd, g, files)
     # D-C05b: a NodeId inside a Value keeps the source document's local namespace index
     doc = minibase.DOC_B.replace('<t:Double>2.5</t:Double>', '<t:NodeId>\n<t:Identifier>ns=2;i=1000</t:Identifier></t:NodeId>').replace('DataType="i=11"', 'DataType="i=17"')
     from opcua_tools import UAGraph
